@@ -369,6 +369,16 @@ func runC09(c *ctx, r *Report) error {
 	}, per, true); err != nil {
 		return err
 	}
+	// inside a project (AL.Props.C09Proj.jobs_independent: with readable callees the cache of interfaces carries nothing from
+	// job to job): the project tie
+	nP := 300
+	if !c.quick {
+		nP = 10000
+	}
+	if err := pjStandard(c, r, nP); err != nil {
+		return err
+	}
+	r.Rule += fmt.Sprintf("; %d generated caller workflows in a scratch repository (jobs that call / need local workflows, steps that use local actions) against AL.ProjCall / AL.ProjAction", nP)
 	// AL.Props.C09Expr.job_depends_on_needed_only is about AL.RuleExpr: the expression rule's diagnostics per job
 	return exStandard(c, r, func(cs Case) (string, string) {
 		if cs.Impl != cs.Model {
